@@ -35,7 +35,7 @@ class C11(BaseCheck):
   REQUIRED_ANCHORS = ANCHORS
   REQUIRED_CLASSES = ('thriftmux', 'kafka', 'adv:duplicate-reply', 'adv:unknown-tag', 'adv:reserved-tag-1',
                       'adv:tag-0', 'adv:huge-tag', 'adv:bitflip-tag', 'error-frame-replies', 'kafka:timeouts', 'tagpool:exhausted', 'tagpool:get-after-refusal', 'direct:bare-messages', 'direct:expired-while-opening', 'direct:retry-from-reply-handler', 'direct:answered-after-expiry-in-queue', 'timeout-before-send', 'timeout-after-send', 're-open',
-                      'tag-reuse', 'yielding-log-handler', 'direct:reply-handler-yields', 'direct:answered-twice-handler-yields', 'replies-in-several-segments')
+                      'tag-reuse', 'yielding-log-handler', 'direct:reply-handler-yields', 'direct:answered-twice-handler-yields', 'replies-in-several-segments', 'large-tags')
   ASSUMPTIONS = ('a tag counts as answered when the client has read the last byte of any R-frame carrying it '
                  '(known from the simulated socket\'s read offsets)',)
   QUICK_CASES = 720
@@ -121,10 +121,16 @@ class C11(BaseCheck):
   # ---------------------------------------------------------------------------
   def run_case(self, env, rng, idx, tier):
     out = CaseResult()
+    self.tag_base = 1
+    self._restore_tagpool = None
     if idx % 5 == 4:
       self._kafka(env, rng, idx, tier, out)
     else:
-      self._thriftmux(env, rng, idx, tier, out)
+      try:
+        self._thriftmux(env, rng, idx, tier, out)
+      finally:
+        if self._restore_tagpool is not None:
+          self._restore_tagpool()
     return out
 
   def _monitor(self, env, out, conns, frame_events, facts, request_types=(2,), start=0):
@@ -466,6 +472,23 @@ class C11(BaseCheck):
     elif idx % 3 == 1:
       self._opening_with_deadlines(env, rng, out, classes)
     ev_start = len(env.events)
+    if idx % 3 == 2 and (idx // 3) % 2 == 0:
+      # connections with a history: their tag pools have handed out (and still lease) the small tags,
+      # so this case's requests carry tags beyond one byte / two bytes
+      from scales.mux.sink import TagPool
+      base_ = rng.choice([126, 127, 255, 32766, 65534])
+      orig_init_ = TagPool.__init__
+
+      def init_(pool_, *a, **k_):
+        orig_init_(pool_, *a, **k_)
+        pool_._next = base_
+      TagPool.__init__ = init_
+      self.tag_base = base_
+
+      def restore_():
+        TagPool.__init__ = orig_init_
+      self._restore_tagpool = restore_
+      classes.add('large-tags')
     if idx % 7 == 2:
       # debug logging through a handler that yields: every log call in the library is a point
       # where other greenlets run (tag allocation, registration and release all log)
@@ -625,9 +648,10 @@ class C11(BaseCheck):
       peak = max(peak, cur)
     out.obligations += 1
     hi = max(maxtag.values() or [1])
-    if hi > 1 + peak:
+    if hi > self.tag_base + peak:
       out.violate('tag:unbounded-consumption', 'highest tag %d after %d calls; at most %d tags could be held at any '
-                  'time (calls in flight + timed-out requests not yet answered or dropped)' % (hi, len(w.calls), peak),
+                  'time (calls in flight + timed-out requests not yet answered or dropped)%s' % (
+                    hi, len(w.calls), peak, '; the pools of this case start handing out tags at %d' % (self.tag_base + 1) if self.tag_base > 1 else ''),
                   facts, {'maxtag_per_conn': maxtag, 'timeouts': n_to})
     out.obligations += 1
     if self.contract_failures:
